@@ -219,3 +219,15 @@ Proof.
   - destruct (nth_error (thr s) i) as [[| | | | |[]|[] []| | | | | | | | | | | | | | |]|]; try discriminate;
       inversion H; reflexivity.
 Qed.
+
+Theorem exactly_once_reachable s : reachable true s -> exactly_one_place s /\ never_twice s.
+Proof.
+  intros R. pose proof (inv_reachable s R) as I.
+  split; [apply exactly_one_place_inv | apply never_twice_inv]; exact I.
+Qed.
+
+Theorem await_reachable s : reachable true s -> await_ok s.
+Proof. intros R. apply await_ok_inv, inv_reachable, R. Qed.
+
+Theorem no_crash_reachable s : reachable true s -> crashed s = false.
+Proof. intros R. apply no_crash_inv, inv_reachable, R. Qed.
